@@ -181,19 +181,28 @@ def run(ctx):
               f"and no iteration may leave the loop body early (the instruction would be neither kept nor expanded)", repo.loc(m, rw),
               sample={"record_at": rec_idx, "append_at": first_append, "early_exit": early})
     # every instruction is appended exactly once: if/elif/else chain where every arm appends
-    chain = [st for st in rw.body if isinstance(st, ast.If) and any(isinstance(n, ast.AugAssign) and A.norm(n.target) == "new_commands" for n in ast.walk(st))]
+    def grows(n):
+        # new_commands += X   |   new_commands.append(x)   |   new_commands.extend(X)
+        return (isinstance(n, ast.AugAssign) and A.norm(n.target) == "new_commands") or \
+            (isinstance(n, ast.Expr) and isinstance(n.value, ast.Call) and A.norm(n.value.func) in ("new_commands.append", "new_commands.extend"))
+
+    def keeps(n, var):
+        return (isinstance(n, ast.AugAssign) and A.norm(n.value) == f"[{var}]") or \
+            (isinstance(n, ast.Expr) and isinstance(n.value, ast.Call) and A.norm(n.value.func) == "new_commands.append" and len(n.value.args) == 1 and A.norm(n.value.args[0]) == var)
+
+    chain = [st for st in rw.body if isinstance(st, ast.If) and any(grows(n) for n in ast.walk(st))]
     ok = False
     if len(chain) == 1:
         cur = chain[0]
         ok = True
         while True:
-            ok = ok and sum(1 for n in cur.body if isinstance(n, ast.AugAssign) and A.norm(n.target) == "new_commands") == 1
+            ok = ok and sum(1 for n in cur.body if grows(n)) == 1
             if len(cur.orelse) == 1 and isinstance(cur.orelse[0], ast.If):
                 cur = cur.orelse[0]
                 continue
-            ok = ok and sum(1 for n in cur.orelse if isinstance(n, ast.AugAssign) and A.norm(n.target) == "new_commands") == 1
+            ok = ok and sum(1 for n in cur.orelse if grows(n)) == 1
             # the else arm keeps the instruction itself
-            ok = ok and any(isinstance(n, ast.AugAssign) and A.norm(n.value) == f"[{rw.target.elts[1].id}]" for n in cur.orelse)
+            ok = ok and any(keeps(n, rw.target.elts[1].id) for n in cur.orelse)
             break
     ctx.check("C08.I", "rewrite-loop:every-instruction-kept-or-expanded", ok, "not every arm of the rewrite appends exactly one expansion (non-gate instructions must be kept as they are, in order)", repo.loc(m, rw))
     # the index map describes new_commands as the rewrite loop built it: afterwards the list may only grow at its end (the no-op)
@@ -360,38 +369,8 @@ def run(ctx):
                   f"{'miss' if set(written) - set(wt) else 'wrongly assume'} a register write", c.loc(), sample={"mnemonic": mn, "writes_to": wt, "executor_writes": written})
     ctx.anchor("C08.W", "instruction classes with a classical handler signature", n_w, 15)
 
-    # ---- C08.V
-    track = None
-    for st in rw.body:
-        if isinstance(st, ast.For) and A.norm(st.iter) in ("affected_regs", f"{rw.target.elts[1].id}.writes_to()"):
-            track = st
-    if track is None:
-        ctx.error("C08.V", "register-tracking loop (for reg in affected_regs) not found")
-        return
-    rv = track.target.id
-    set_if = [st for st in track.body if isinstance(st, ast.If) and isinstance(st.test, ast.Call) and dotted(st.test.func) == "isinstance" and "SetInstruction" in A.norm(st.test.args[1])]
-    ok_set = False
-    ok_inv = False
-    if set_if:
-        s0 = set_if[0]
-        ok_set = any(isinstance(n, ast.Assign) and A.norm(n.targets[0]) == f"self._register_values[{rv}]" and A.norm(n.value).endswith(".imm") for n in s0.body)
-        for n in s0.orelse:
-            for x in ast.walk(n):
-                if isinstance(x, ast.Call) and A.norm(x.func) in ("self._register_values.pop",) and x.args and A.norm(x.args[0]) == rv:
-                    ok_inv = True
-                if isinstance(x, ast.Delete) and any(A.norm(t) == f"self._register_values[{rv}]" for t in x.targets):
-                    ok_inv = True
-            if isinstance(n, ast.Raise):
-                ok_inv = True
-    # only Q registers are skipped
-    skip = [st for st in track.body if isinstance(st, ast.If) and any(isinstance(x, ast.Continue) for x in st.body)]
-    q_only = len(skip) == 1 and A.norm(skip[0].test) == f"{rv}.name!=RegisterName.Q"
-    ctx.check("C08.V", "register-tracking:set-updates-value", ok_set and q_only, "a `set` of a Q register does not record its immediate as the tracked value (or registers other than Q are not the only ones skipped)", repo.loc(m, track))
-    ctx.check("C08.V", "register-tracking:other-write-invalidates", ok_inv,
-              "an instruction other than `set` that writes a Q register (e.g. `load Q0 @a[i]`) leaves the previously tracked value in place: "
-              "the decomposition chosen for a later two-qubit gate reflects a stale qubit id (wrong circuit or assertion)", repo.loc(m, track),
-              sample={"tracking loop": src(track)[:160]})
-    check_scratch(ctx, nvt, rw)
+    # ---- C08.V / C08.U  (abstract execution)
+    check_tracking(ctx, nvt, tp, reg, corem, vanm)
     # the tracked values are what the two-qubit dispatch reads
     h2 = nvt.methods.get("_handle_two_qubit_gate")
     ok = h2 is not None and sum(1 for c in A.calls_in(h2) if A.call_name(c) == "get_reg_value") >= 2
@@ -412,64 +391,131 @@ def run(ctx):
     shadow.check(ctx, "C08.H", ['netqasm.sdk.transpile'])
 
 
-def check_scratch(ctx, nvt, rw):
-    """C08.U: the scratch (borrowed-electron) register is one the program has not mentioned: the set it is tested against
-    receives every Register operand of every instruction and never shrinks."""
+def check_tracking(ctx, nvt, tp, reg, corem, vanm):
+    """C08.V and C08.U: what the transpiler knows about registers while it rewrites, decided by executing transpile().
+
+    transpile() runs in the checker's interpreter on a program that sets, overwrites, loads into and computes into Q registers
+    between two-qubit gates.  The two-qubit handler is modelled: at each gate it records the tracked register values and asks the
+    real get_unused_register for a scratch register.  Required at every gate:
+      V  the tracked value of a Q register is the immediate of the last `set` of it, and there is none once any other instruction
+         has written it since (or it was never set); registers of other banks are not tracked;
+      U  the scratch register is a Q register that no instruction so far (the gate included) names as an operand - whatever the
+         instruction is and whether or not its value is tracked; with all sixteen named, asking for one fails."""
+    from .. import circuit as C
     repo = ctx.repo
     m = nvt.module
     gu = nvt.methods.get("get_unused_register")
     if gu is None:
         raise AnalysisError("NVSubroutineTranspiler.get_unused_register not found")
     ctx.fn("NVSubroutineTranspiler.get_unused_register")
-    excl = set()
-    for r in A.returns(gu):
-        if isinstance(r.value, ast.Name):
-            for t, pol in G.path_conditions(gu, r):
-                if (not pol) and isinstance(t, ast.Compare) and len(t.ops) == 1 and isinstance(t.ops[0], ast.In) and A.norm(t.left) == r.value.id and A.is_self_attr(t.comparators[0]):
-                    excl.add(t.comparators[0].attr)
-    ctx.check("C08.U", "get_unused_register:candidate-tested-against-a-set", len(excl) == 1,
-              f"the scratch register is not returned under exactly one `reg not in self.<set>` test (found {sorted(excl)})", repo.loc(m, gu))
-    if len(excl) != 1:
+    K = corem.classes
+    ADDR, ENTRY = repo.get_class("netqasm.lang.operand", "Address"), repo.get_class("netqasm.lang.operand", "ArrayEntry")
+
+    def setq(r, v):
+        return C.Obj(K["SetInstruction"], {"reg": r, "imm": C.Imm(v)})
+
+    def program(n_q):
+        q = [reg("Q", i) for i in range(16)]
+        r1, r2, c3 = reg("R", 1), reg("R", 2), reg("C", 3)
+        entry = C.Obj(ENTRY, {"address": C.Obj(ADDR, {"address": 0}), "index": r2})
+        prog = [setq(q[0], 0), setq(r1, 5), setq(q[1], 2), setq(q[1], 1),
+                C.Obj(vanm.classes["CnotInstruction"], {"reg0": q[0], "reg1": q[1]}),                       # gate A: Q0=0 Q1=1
+                C.Obj(K["LoadInstruction"], {"reg": q[0], "entry": entry}),                                  # Q0 unknown from here
+                setq(q[2], 9), C.Obj(K["AddInstruction"], {"reg0": q[2], "reg1": q[2], "reg2": r1}),         # Q2 set, then computed into
+                setq(c3, 1), setq(q[3], 3),
+                C.Obj(vanm.classes["CphaseInstruction"], {"reg0": q[1], "reg1": q[3]}),                      # gate B: Q1=1 Q3=3 (Q0, Q2 unknown)
+                setq(q[0], 4),
+                C.Obj(vanm.classes["CnotInstruction"], {"reg0": q[0], "reg1": q[3]})]                        # gate C: Q0=4 Q1=1 Q3=3
+        for k in range(4, n_q):
+            prog.insert(len(prog) - 1, C.Obj(K["LoadInstruction"], {"reg": q[k], "entry": entry}))           # named, never set
+        return prog
+
+    def reference(prog, upto):
+        vals, named = {}, []
+        for ins_ in prog[:upto + 1]:
+            f = ins_.fields
+            regs_ = [v for v in f.values() if isinstance(v, C.Obj) and v.cls is not None and v.cls.name == "Register"]
+            for r_ in regs_:
+                if not any(r_ is x for x in named):
+                    named.append(r_)
+            tgt = f.get("reg") if ins_.cls.name in ("SetInstruction", "LoadInstruction") else f.get("reg0") if ins_.cls.name == "AddInstruction" else None
+            if tgt is not None and tgt.fields["name"].name == "Q":
+                if ins_.cls.name == "SetInstruction":
+                    vals[id(tgt)] = (tgt, f["imm"].value)
+                else:
+                    vals.pop(id(tgt), None)
+        return vals, named
+
+    def rname(r_):
+        return f"{r_.fields['name'].name}{r_.fields['index']}" if isinstance(r_, C.Obj) and r_.cls is not None and r_.cls.name == "Register" else repr(r_)
+
+    bad = {}
+    n_gates = 0
+    try:
+        for n_q in (4, 15, 16):
+            prog = program(n_q)
+            sub = C.Obj(None, {"instructions": list(prog)})
+            o = C.object_from_init(repo, nvt, {"_subroutine": sub, "_used_registers": set(), "_register_values": {}, "_debug": False}, kind="self")
+            sc = C.Scenario()
+            sc.plain_registers = True
+            seen = []
+
+            def two(instr=None, *a_, o=o, sc=sc, seen=seen, **k_):
+                tracked = dict(o.fields["_register_values"])
+                try:
+                    scratch = C.Interp(repo, ctx.ev, sc, nvt).call_function(m, gu, [], {}, self_obj=o)
+                except C.EvalRaise as ex_:
+                    scratch = f"raises {ex_.exc_name}"
+                seen.append((instr, tracked, scratch))
+                return [instr]
+
+            sc.overrides["_handle_two_qubit_gate"] = two
+            sc.overrides["_handle_single_qubit_gate"] = lambda instr=None, *a_, **k_: [instr]
+            C.Interp(repo, ctx.ev, sc, nvt).call_function(m, tp, [], {}, self_obj=o)
+            gates = [k for k, x in enumerate(prog) if x.cls.name in ("CnotInstruction", "CphaseInstruction")]
+            if [g_[0] for g_ in seen] != [prog[k] for k in gates]:
+                bad.setdefault("dispatch", f"the two-qubit handler is called for {len(seen)} of the {len(gates)} two-qubit gates")
+                continue
+            for k, (ins_, tracked, scratch) in zip(gates, seen):
+                n_gates += 1
+                want, named = reference(prog, k)
+                got = {}
+                for key, val in tracked.items():
+                    got[rname(key)] = val.value if isinstance(val, C.Imm) else val
+                want_n = {rname(r_): v_ for r_, v_ in want.values()}
+                stale = sorted(k_ for k_ in got if k_ not in want_n)
+                wrong = sorted(k_ for k_ in want_n if got.get(k_) != want_n[k_])
+                if stale:
+                    bad.setdefault("other-write-invalidates", f"at instruction {k} ({ins_.cls.name}) the transpiler still believes {', '.join(f'{x}={got[x]}' for x in stale)}; "
+                                                                f"the program has written {stale} by an instruction other than `set` since (or never set it / it is not a Q register)")
+                if wrong:
+                    bad.setdefault("set-updates-value", f"at instruction {k} ({ins_.cls.name}) the tracked values are {got}, the last `set`s say {want_n}")
+                q_named = [r_ for r_ in named if r_.fields["name"].name == "Q"]
+                if len(q_named) >= 16:
+                    if not (isinstance(scratch, str) and scratch.startswith("raises")):
+                        bad.setdefault("exhaustion", f"all sixteen Q registers are named by the program and get_unused_register still returns {rname(scratch)}")
+                    continue
+                if isinstance(scratch, str):
+                    bad.setdefault("scratch", f"at instruction {k} get_unused_register {scratch} although only {len(q_named)} Q registers are named")
+                    continue
+                if not (isinstance(scratch, C.Obj) and scratch.cls is not None and scratch.cls.name == "Register" and scratch.fields["name"].name == "Q" and 0 <= scratch.fields["index"] < 16):
+                    bad.setdefault("scratch", f"the scratch register {rname(scratch)} is not one of Q0..Q15")
+                elif any(rname(r_) == rname(scratch) for r_ in named):
+                    bad.setdefault("scratch", f"at instruction {k} ({ins_.cls.name}) the scratch register is {rname(scratch)}, which the program names "
+                                              f"(operands so far: {sorted(rname(r_) for r_ in named)}): its value is overwritten by the borrowed-electron sequence")
+    except C.EvalRaise as ex_:
+        bad.setdefault("dispatch", f"transpile() raises {ex_}")
+    except AnalysisError as ex_:
+        ctx.error("C08.V", f"NV transpile() cannot be evaluated for register tracking: {ex_}")
         return
-    S = next(iter(excl))
-    # (a) every Register operand of every instruction is added, unconditionally, in the rewrite loop before the expansion
-    instr_v = rw.target.elts[1].id if isinstance(rw.target, ast.Tuple) else rw.target.id
-    adds_all = False
-    for st in rw.body:
-        if isinstance(st, ast.For) and A.norm(st.iter) == f"{instr_v}.operands" and isinstance(st.target, ast.Name):
-            ov = st.target.id
-            for x in ast.walk(st):
-                if isinstance(x, ast.Call) and isinstance(x.func, ast.Attribute) and A.is_self_attr(x.func.value, S) and x.func.attr in ("add", "update") and x.args and A.contains_name(x.args[0], ov):
-                    # the only condition on recording an operand is that it is a Register (facts that hold at the call, inside the operand loop)
-                    facts = [(A.norm(t), pol) for t, pol in G.path_conditions(st, x)]
-                    adds_all = all(n_ == f"isinstance({ov},Register)" and pol for n_, pol in facts)
-    # or in one go: S.update(<op for op in instr.operands if isinstance(op, Register)>)
-    for st in rw.body:
-        for x in ast.walk(st):
-            if isinstance(x, ast.Call) and isinstance(x.func, ast.Attribute) and A.is_self_attr(x.func.value, S) and x.func.attr == "update" and len(x.args) == 1 \
-                    and isinstance(x.args[0], (ast.GeneratorExp, ast.ListComp, ast.SetComp)) and len(x.args[0].generators) == 1:
-                g_ = x.args[0].generators[0]
-                if isinstance(g_.target, ast.Name) and A.norm(g_.iter) == f"{instr_v}.operands" and A.norm(x.args[0].elt) == g_.target.id \
-                        and [A.norm(c_) for c_ in g_.ifs] == [f"isinstance({g_.target.id},Register)"] and not G.path_conditions(rw, x):
-                    adds_all = True
-    ctx.check("C08.U", f"transpile:every-register-operand-recorded-in-{S}", adds_all,
-              f"the rewrite loop does not add every Register operand of every instruction to self.{S}, the set the scratch register is chosen outside of: "
-              "a register the program uses (e.g. one filled by `load`) can be picked as scratch and overwritten with `set <reg> 0`", repo.loc(m, rw),
-              sample={"set": S})
-    # (b) the set never shrinks
-    shrinks = []
-    for name, fn in nvt.methods.items():
-        if name == "__init__":
-            continue
-        for x in ast.walk(fn):
-            if isinstance(x, ast.Call) and isinstance(x.func, ast.Attribute) and A.is_self_attr(x.func.value, S) and x.func.attr in ("pop", "remove", "discard", "clear", "difference_update", "intersection_update", "popitem"):
-                shrinks.append(f"{name}: {src(x)}")
-            if isinstance(x, ast.Delete) and any(isinstance(t, ast.Subscript) and A.is_self_attr(t.value, S) for t in x.targets):
-                shrinks.append(f"{name}: {src(x)}")
-            if isinstance(x, ast.Assign) and any(A.is_self_attr(t, S) for t in x.targets):
-                shrinks.append(f"{name}: {src(x)}")
-    ctx.check("C08.U", f"{S}:never-shrinks", not shrinks,
-              f"self.{S} decides which registers may be taken as scratch but entries are removed from it ({'; '.join(shrinks)[:200]}): a register that is still live becomes eligible", repo.loc(m, gu))
+    ctx.anchor("C08.V", "two-qubit gates at which the tracked state was inspected", n_gates, 9)
+    loc = repo.loc(m, tp)
+    ctx.check("C08.V", "register-tracking:gates-dispatched", "dispatch" not in bad, f"{bad.get('dispatch')}", loc, trivial=True)
+    ctx.check("C08.V", "register-tracking:set-updates-value", "set-updates-value" not in bad, f"a `set` of a Q register does not record its immediate as the tracked value: {bad.get('set-updates-value')}", loc)
+    ctx.check("C08.V", "register-tracking:other-write-invalidates", "other-write-invalidates" not in bad,
+              f"a stale or foreign register value is tracked: {bad.get('other-write-invalidates')}: the decomposition chosen for a later two-qubit gate reflects a stale qubit id (wrong circuit or assertion)", loc)
+    ctx.check("C08.U", "get_unused_register:scratch-is-a-Q-register-the-program-has-not-named", "scratch" not in bad, f"{bad.get('scratch')}", repo.loc(m, gu))
+    ctx.check("C08.U", "get_unused_register:no-free-register-is-an-error", "exhaustion" not in bad, f"{bad.get('exhaustion')}", repo.loc(m, gu))
 
 
 TP = "netqasm/sdk/transpile.py"
@@ -478,9 +524,9 @@ SEEDS = [
     dict(id="c08-strip-zero-rotations-after-map", file=TP, expect="C08.I", construct="only-appended-to",
          old="        add_no_op_at_end = False\n\n        for instr in new_commands:", new="        new_commands = [c for c in new_commands if not (isinstance(c, core.RotationInstruction) and c.angle_num == Immediate(0))]\n        add_no_op_at_end = False\n\n        for instr in new_commands:"),
 
-    dict(id="c08-scratch-from-tracked-values", file=TP, expect="C08.U", construct="never-shrinks",
+    dict(id="c08-scratch-from-tracked-values", file=TP, expect="C08.U", construct="scratch-is-a-Q-register",
          old="            if reg not in self._used_registers:", new="            if reg not in self._register_values:"),
-    dict(id="c08-used-registers-only-set-targets", file=TP, expect="C08.U", construct="every-register-operand-recorded",
+    dict(id="c08-used-registers-only-set-targets", file=TP, expect="C08.U", construct="scratch-is-a-Q-register",
          old="                if isinstance(op, Register):\n                    self._used_registers.update([op])", new="                if isinstance(op, Register) and isinstance(instr, core.SetInstruction):\n                    self._used_registers.update([op])"),
 
     dict(id="c08-drop-jmp", file=TP, expect="C08.J", construct="NV transpiler", old="                or isinstance(instr, core.BranchBinaryInstruction)\n                or isinstance(instr, core.JmpInstruction)\n            ):\n                original_line = instr.line.value\n                if original_line == len(self._subroutine.instructions):\n                    # There was a label in the original subroutine at the very end.\n                    # Since this label is now removed, we should put a \"no-op\"\n                    # instruction there so there is something to jump to.\n                    add_no_op_at_end = True\n                    instr.line",
